@@ -123,6 +123,25 @@ def chain_lines(rng, g, N, kind):
     return lines
 
 
+def band_lines(rng, g, n):
+    """exp / rplus of tangents whose rotation part lies in the two decades above the small-angle switch (closed forms
+    such as (cos th - 1)/th lose eps/th there) with translation parts of size 1: one operation each, so the bound is
+    the tightest the property states (2e-13 / 3e-13)"""
+    lines = ["reset", f"sete 0 {hexs(rand_coeffs(rng, g))}"]
+    for i in range(n):
+        th = 10 ** (rng.uniform(-4.0, -3.4) if i % 3 else rng.uniform(-3.4, -2.0))
+        t = rand_tangent(rng, g, 1.0, 1.0)
+        rot = ROT_IDX[g]
+        if rot:
+            nrm = math.sqrt(sum(t[j] ** 2 for j in rot)) or 1.0
+            for j in rot:
+                t[j] *= th / nrm
+        lines.append(f"sett 0 {hexs(t)}")
+        lines.append("exp 1 0 0")
+        lines.append("rplus 2 0 0")
+    return lines
+
+
 def ode_lines(rng, g, quick):
     lines = ["reset", f"sete 0 {hexs(rand_coeffs(rng, g))}", f"sett 0 {hexs(rand_tangent(rng, g, 0.7))}"]
     for s in STEPPERS:
@@ -163,6 +182,7 @@ def check(prop, tier, seed, replay=None):
             for kind in kinds:
                 jobs.append((g, chain_lines(rng, g, N, kind), every, {"kind": f"chain {kind} x{N}"}))
             jobs.append((g, ode_lines(rng, g, quick), 1, {"kind": "odeint"}))
+            jobs.append((g, band_lines(rng, g, 24 if quick else 300), 1, {"kind": "band above the small-angle switch"}))
         oc.extra["tlc_programs"] = len(uniq)
     exes = {g: e for g, e in zip(sorted({j[0] for j in jobs}),
                                  V.build_many([("machine.cpp", [f"VH_GROUP={g}", "VH_SCALAR=double"]) for g in sorted({j[0] for j in jobs})]))}
